@@ -1,6 +1,6 @@
 // C01 native driver: executes the resolved call scripts (vf/wraplib.py native_script) with DIRECT
 // C++ calls (generated call sites, one per function x number of omitted defaults) and prints one
-// JSON line per step: {"b":behaviour,"i":step,"ret":value,"post":[[st,bst]|null,...]}.
+// JSON line per step: {"b":behaviour,"i":step,"ret":value,"post":[[st,bst,tg]|null,...]}.
 // Line format of the script:
 //   B <bid> <family>      begin behaviour          E            end (remaining objects are deleted)
 //   C <this> <gid> <k> <args...>   call / construct through call site (gid,k); this = slot or 0
@@ -41,14 +41,14 @@ struct X {
     for (unsigned char c : s) {
       char b[8];
       if (c == '"' || c == '\\') { o += '\\'; o += (char)c; }
-      else if (c < 0x20 || c >= 0x7f) { snprintf(b, sizeof b, "\\u%04x", c); o += b; }
+      else if (c < 0x20 || c == 0x7f) { snprintf(b, sizeof b, "\\u%04x", c); o += b; }     // UTF-8 bytes as they are
       else o += (char)c;
     }
     ret = o + "\"";
   }
   void post_begin() { post = "["; }
   void post_dead() { if (post.size() > 1) post += ","; post += "null"; }
-  void post_live(long st, long bst) { if (post.size() > 1) post += ","; post += "[" + std::to_string(st) + "," + std::to_string(bst) + "]"; }
+  void post_live(long st, long bst, long tg) { if (post.size() > 1) post += ","; post += "[" + std::to_string(st) + "," + std::to_string(bst) + "," + std::to_string(tg) + "]"; }
   void post_end() { post += "]"; }
 };
 
